@@ -800,12 +800,13 @@ def selftest(ctx, cov, lines):
             continue
         if ctx.prop == 'C06' and d['e'] == 'write' and d.get('res') == 'Ok' and not d['mesh']['needs_gc']:
             m = d['mesh']
-            if m['ne'] > 0 and len(muts) < 9:
+            have = lambda k: sum(1 for kk, _ in muts if kk == k)
+            if m['ne'] > 0 and have('edge handle') < 2:
                 c = json.loads(ln); c['mesh']['edges'][0][0] += 1; muts.append(('edge handle', c))
-            if m['nv'] > 0 and len(muts) < 9:
+            if m['nv'] > 0 and have('position bit') < 2:
                 c = json.loads(ln); c['mesh']['pos'][0][0] ^= 1; muts.append(('position bit', c))
                 c = json.loads(ln); c['bytes'][-1] ^= 1; muts.append(('file byte', c))
-            if any(p['t'] == 'int32' and p['vals'] for p in m['props']) and len(muts) < 9:
+            if any(p['t'] == 'int32' and p['vals'] for p in m['props']) and have('property value') < 3:
                 c = json.loads(ln)
                 q = [p for p in c['mesh']['props'] if p['t'] == 'int32' and p['vals']][0]; q['vals'][0][0] ^= 1; muts.append(('property value', c))
         elif ctx.prop == 'C18' and d['e'] == 'read' and d.get('res') not in ('Ok', 'Crash', 'Timeout') and len(d['bytes']) < 48 and len(muts) < 3:
